@@ -39,6 +39,8 @@ type SpecEnv struct {
 	inTrig   bool // evaluating an instantiation pattern
 	// recLevel: unfolding level to use for calls of a recursive spec function (inside its own axiom)
 	recLevel map[string]int
+	// rangeSeen: in a loop invariant of a map-range loop, the ghost set of keys produced so far
+	rangeSeen string
 }
 
 func (f *Frame) specEnv(st, old *State, pkg *ssa.Package) *SpecEnv {
@@ -1175,13 +1177,28 @@ func (env *SpecEnv) evalCall(x *ECall) (sval, error) {
 			}
 			env.st, env.inOld = saved, savedOld
 			return v, err
+		case "rangeseen":
+			// rangeseen(k): in an invariant of a loop that ranges over a map, the range has
+			// produced key k in an earlier iteration (rangeseen.go)
+			if len(x.Args) != 1 {
+				return sval{}, fmt.Errorf("rangeseen takes one argument (a key)")
+			}
+			if env.rangeSeen == "" {
+				return sval{}, fmt.Errorf("rangeseen: not in an invariant of a loop that ranges over a map")
+			}
+			kv, err := env.eval(x.Args[0])
+			if err != nil {
+				return sval{}, err
+			}
+			return sval{t: fmt.Sprintf("(select %s %s)", f.heap(env.state(), env.rangeSeen), kv.t), sort: "Bool"}, nil
 		case "called":
 			// called(anchor): the execution came through a call of a function named like the anchor
 			// (path-sensitive; for exit clauses; call sites outside loops only)
 			if len(x.Args) != 1 {
 				return sval{}, fmt.Errorf("called takes one argument (a callee name as in 'assert at call')")
 			}
-			c, err := f.calledCond(x.Args[0].exprString())
+			// the name may be given as a string literal (closure names contain '$')
+			c, err := f.calledCond(strings.Trim(x.Args[0].exprString(), "\""))
 			if err != nil {
 				return sval{}, err
 			}
